@@ -21,6 +21,8 @@ def instances(tier):
                     continue
                 for bx, by in bits:
                     poly = rk in POLY and sk in POLY
+                    if (bx, by) != (1, 0) and not poly:
+                        continue        # 4-phase tables of the wide transcendental kernels exhaust memory
                     d = {"RK": "PIXMAN_KERNEL_" + rk, "SK": "PIXMAN_KERNEL_" + sk, "SLO": sc, "SHI": sc, "BX": bx, "BY": by, "WMAX": w}
                     if not poly:
                         d["NO_SUM"] = None
